@@ -91,9 +91,25 @@ def _std_grid(rng: Rng, fam, m):
     return rng.grid(m, lo=lo, scale=scale)
 
 
+EXHAUSTIVE = dict(quick=False, thorough=True)
+
+
 def gen_cases(rng: Rng, tier):
     n = dict(quick=330, thorough=4400)[tier]
     big = tier == "thorough"
+    if big:
+        # exhaustive small scope of the quantifier: every (n_functions, degree), degree 1..5, n_functions degree+1..40
+        for p in range(1, 6):
+            for nfun in range(p + 1, 41):
+                dmin, dmax = _domain(rng)
+                xs = _bs_grid(rng, dmin, dmax, nfun - p, p, rng.randint(4, 12))
+                yield dict(kind="bs", p=p, nfun=nfun, dmin=rs(dmin), dmax=rs(dmax), x=[rs(v) for v in xs], default_dom=False)
+        # every ordered pair of families in 2-D, with and without intercept
+        for f1 in FAMILIES:
+            for f2 in FAMILIES:
+                for add in (True, False):
+                    yield dict(kind="basis2", fam=[f1, f2], n=[3, 4], p=2, add=add, norm=False,
+                               x1=[rs(v) for v in _std_grid(rng, f1, 4)], x2=[rs(v) for v in _std_grid(rng, f2, 5)])
     kinds = ["bs", "bs", "bs", "sim", "sim", "ortho", "basis1", "basis2", "basis2", "multi", "reject"]
     for k in range(n):
         kind = kinds[k % len(kinds)]
@@ -102,7 +118,9 @@ def gen_cases(rng: Rng, tier):
             dmin, dmax = _domain(rng)
             m = rng.randint(3, 30 if big else 16)
             xs = _bs_grid(rng, dmin, dmax, nfun - p, p, m)
-            default_dom = rng.random() < 0.2 and xs[0] == dmin and xs[-1] == dmax
+            if rng.random() < 0.1:  # tiny grids: the end points alone, or with one interior point
+                xs = [dmin, dmax] if rng.random() < 0.5 else [dmin, dmin + (dmax - dmin) * Fraction(rng.randint(1, 7), 8), dmax]
+            default_dom = rng.random() < (0.5 if len(xs) <= 3 else 0.2) and xs[0] == dmin and xs[-1] == dmax
             yield dict(kind=kind, p=p, nfun=nfun, dmin=rs(dmin), dmax=rs(dmax), x=[rs(v) for v in xs], default_dom=default_dom)
         elif kind == "sim":
             fam = rng.choice(FAMILIES)
@@ -119,8 +137,8 @@ def gen_cases(rng: Rng, tier):
                 xs = [v for v in xs if dmin <= v <= dmax]
                 c.update(n=nf, p=p, dmin=rs(dmin), dmax=rs(dmax), x=[rs(v) for v in xs], default_dom=rng.random() < 0.3 and len(xs) >= 3)
             else:
-                if fam == "fourier" and m < 3:
-                    m = 3
+                if not norm and rng.random() < 0.12:
+                    m = rng.choice([2, 3])  # tiny grids
                 c.update(x=[rs(v) for v in _std_grid(rng, fam, m)])
             yield c
         elif kind == "ortho":
